@@ -2,7 +2,7 @@
 import numpy as np
 import impl
 from gen import grid, data, material, special
-from .common import tolist, exceeds
+from .common import tolist, exceeds, history_differs
 
 LEAN = "PystogVerif.Props.C15"
 ENTRIES = ["Transformer._low_x_correction", "Transformer.fourier_transform", "Transformer.S_to_G", "Transformer.F_to_g"]
@@ -96,6 +96,16 @@ def evaluate(case):
         fails.append(f"{inp}_to_{out}: added term {added[k]!r} at r={r[k]!r} differs from the transform of the linear-to-zero model {exp[k]!r}")
     if (~pos).any() and out == "G" and exceeds(np.abs(added[~pos]).max(), 1e-12 * max(1.0, sc)):
         fails.append("added term does not vanish at r = 0")
+    # the same Transformer served, just before, data with the same Qmin and r grid but another Qmax / other options
+    if len(q) > 5 and len(q) <= 120:
+        on = dict(OmittedXrangeCorrection=True, **kw)
+        meth = f"{inp}_to_{out}"
+        prim = [(meth, (q[:-2], y[:-2], r), on), (meth, (q[:-2], y[:-2], r), dict(on, lorch=not case["lorch"])),
+                (meth, (q, y, r), dict(on, lorch=not case["lorch"]))]
+        with np.errstate(all="ignore"):
+            if history_differs("Transformer", meth, (q, y, r), on, prim):
+                fails.append(f"{meth} with the omitted-range correction: the result depends on calls the same Transformer served before "
+                             "(same Qmin and r grid, other Qmax or Lorch setting)")
     # depends on the data only through Qmin, S(Qmin) (and Qmax with Lorch)
     s2 = s.copy()
     first = int(np.argmax(q >= case["xmin"])) if case.get("xmin") is not None else 0
